@@ -1,5 +1,11 @@
 (* Poly1305: the generated code (Gen/C09_Poly1305.v) equals RFC 8439 2.5 (Spec/C09_Poly1305.v)
-   for messages of any length. *)
+   for messages of any length.
+   Robustness against behaviour-preserving rewrites of poly1305.py: everything downstream depends only on the three
+   characterising lemmas poly_init_ok / poly_init_bad / poly_create_tag_ok.  Their proofs do not mention the helper
+   functions' types; they unfold the generated text and recognise LOOP IDIOMS (lemmas about explicit loop terms, section
+   "idioms"): little-endian number by descending index or by `reversed`, 16-byte serialisation by shifting accumulator or
+   by `(num >> 8*i) & 0xff`, block loop by block index (divceil) or by `range(0, len, 16)`.  A rewrite into another idiom
+   breaks these proofs (reported as a broken tie). *)
 From Coq Require Import ZArith List Bool Lia.
 From TV Require Import Base.Prelude Base.C09_Lib Gen.C09_Poly1305 Spec.C09_Poly1305.
 Import ListNotations.
@@ -34,15 +40,25 @@ Proof.
   apply (fold_left_rev_right (fun y x => g x y)).
 Qed.
 
-Lemma poly_le_bytes_to_num_ok data : poly_le_bytes_to_num data = Ok (le_num data).
+(* idiom A: for i in range(len(data)-1, -1, -1): ret <<= 8; ret += data[i] *)
+Lemma le_loop_index data :
+  foldM (fun ret i => t2_ <- py_index data i ;; Ok (Z.add (Z.shiftl ret 8) t2_))
+        (py_range (Z.sub (zlen data) 1) (-1) (-1)) 0 = Ok (le_num data).
 Proof.
-  unfold poly_le_bytes_to_num.
   rewrite py_range_down by apply zlen_nonneg.
   rewrite (foldM_ok_ext _ (fun ret i => Z.shiftl ret 8 + nthZ data i)).
-  - cbn [bind]. f_equal. rewrite fold_left_rev.
+  - f_equal. rewrite fold_left_rev.
     exact (le_fold_right [] data).
   - intros a i Hi. apply in_rev in Hi. apply in_zrange in Hi.
     rewrite py_index_ok by lia. reflexivity.
+Qed.
+
+(* idiom B: for byte in reversed(data): ret = (ret << 8) + byte *)
+Lemma le_loop_rev data :
+  fold_left (fun ret byte => Z.add (Z.shiftl ret 8) byte) (rev data) 0 = le_num data.
+Proof.
+  rewrite fold_left_rev. induction data as [|x d IH]; [reflexivity|].
+  cbn [fold_right le_num]. rewrite IH. rewrite Z.shiftl_mul_pow2 by lia. change (2 ^ 8) with 256. lia.
 Qed.
 
 (* ---- num_to_16_le_bytes = le_bytes 16 ---------------------------------------- *)
@@ -106,14 +122,61 @@ Proof.
       reflexivity.
 Qed.
 
-Lemma poly_num_to_16_le_bytes_ok num : poly_num_to_16_le_bytes num = Ok (le_bytes 16 num).
+(* idiom A: ret = [0]*16; for i, _ in enumerate(ret): ret[i] = num & 0xff; num >>= 8; bytearray(ret) *)
+Lemma ser_loop_shift num :
+  ('(ret, num0) <- foldM (fun '(ret, num0) '(i, _) =>
+      ret <- py_store ret i (Z.land num0 255) ;; Ok (ret, Z.shiftr num0 8))
+    (py_enumerate (py_repeat [0] 16)) (py_repeat [0] 16, num) ;;
+   t1_ <- mk_bytes ret ;; Ok t1_) = Ok (le_bytes 16 num).
 Proof.
-  unfold poly_num_to_16_le_bytes.
   set (z16 := py_repeat [0] 16).
   pose proof (num_to_le_loop z16 [] z16 num eq_refl) as H.
   cbn [app] in H. rewrite zlen_nil in H. unfold py_enumerate.
   change (0 + zlen z16) with (zlen z16) in H.
   rewrite H. cbn [bind]. unfold mk_bytes. rewrite le_bytes_all_bytes. reflexivity.
+Qed.
+
+(* idiom B: ret = bytearray(16); for i in range(16): ret[i] = (num >> (8 * i)) & 0xff *)
+Lemma le_bytes_shift_map n : forall v,
+  le_bytes n v = map (fun i => Z.land (Z.shiftr v (Z.mul 8 i)) 255) (zrange 0 (Z.of_nat n)).
+Proof.
+  induction n as [|n IH]; intros v; [reflexivity|].
+  rewrite Nat2Z.inj_succ. rewrite zrange_cons by lia. cbn [le_bytes map]. f_equal.
+  - rewrite Z.mul_0_r, Z.shiftr_0_r. change 255 with (Z.ones 8). rewrite Z.land_ones by lia. reflexivity.
+  - rewrite IH. replace (zrange (0 + 1) (Z.succ (Z.of_nat n))) with (map (fun k => k + 1) (zrange 0 (Z.of_nat n))).
+    2:{ unfold zrange. rewrite map_map. replace (Z.to_nat (Z.succ (Z.of_nat n) - (0 + 1))) with (Z.to_nat (Z.of_nat n - 0)) by lia.
+        apply map_ext. intros k. lia. }
+    rewrite map_map. apply map_ext_in. intros i Hi. apply in_zrange in Hi. f_equal.
+    replace (v / 256) with (Z.shiftr v 8) by (rewrite Z.shiftr_div_pow2 by lia; reflexivity).
+    rewrite Z.shiftr_shiftr by lia. f_equal. lia.
+Qed.
+
+Lemma store_b_loop (f : Z -> Z) : (forall i, is_byte (f i) = true) ->
+  forall (suf pre : list Z),
+  foldM (fun ret i => ret <- py_store_b ret i (f i) ;; Ok ret)
+        (zrange (zlen pre) (zlen pre + zlen suf)) (pre ++ suf)
+  = Ok (pre ++ map f (zrange (zlen pre) (zlen pre + zlen suf))).
+Proof.
+  intros Hf. induction suf as [|y suf IH]; intros pre.
+  - change (zlen (@nil Z)) with 0. rewrite Z.add_0_r, zrange_empty by lia. reflexivity.
+  - rewrite zrange_cons by zl. cbn [foldM map].
+    unfold py_store_b. rewrite Hf. rewrite py_store_app. cbn [bind].
+    replace (pre ++ f (zlen pre) :: suf) with ((pre ++ [f (zlen pre)]) ++ suf) by (rewrite <- app_assoc; reflexivity).
+    replace (zlen pre + 1) with (zlen (pre ++ [f (zlen pre)])) by zl.
+    replace (zlen pre + zlen (y :: suf)) with (zlen (pre ++ [f (zlen pre)]) + zlen suf) by zl.
+    rewrite IH. rewrite <- app_assoc. reflexivity.
+Qed.
+
+Lemma ser_loop_index num :
+  (t1_ <- py_zeros 16 ;;
+   ret <- foldM (fun ret i => ret <- py_store_b ret i (Z.land (Z.shiftr num (Z.mul 8 i)) 255) ;; Ok ret) (zrange 0 16) t1_ ;;
+   Ok ret) = Ok (le_bytes 16 num).
+Proof.
+  unfold py_zeros. change (16 <? 0) with false. cbv iota. cbn [bind]. change (Z.to_nat 16) with 16%nat.
+  pose proof (store_b_loop (fun i => Z.land (Z.shiftr num (Z.mul 8 i)) 255)
+    ltac:(intros i; cbv beta; change 255 with (Z.ones 8); rewrite Z.land_ones by lia; apply is_byte_mod) (repeat 0 16) []) as H.
+  cbn [app] in H. change (zlen (@nil Z)) with 0 in H. change (0 + zlen (repeat 0 16)) with 16 in H.
+  rewrite H. cbn [bind]. rewrite (le_bytes_shift_map 16). reflexivity.
 Qed.
 
 (* ---- divceil ------------------------------------------------------------------ *)
@@ -190,23 +253,54 @@ Section Horner.
   Qed.
 End Horner.
 
+Lemma fold_left_ext {A B} (f g : A -> B -> A) l a : (forall a x, f a x = g a x) -> fold_left f l a = fold_left g l a.
+Proof. intros H. revert a. induction l as [|x l IH]; intros a; cbn [fold_left]; [reflexivity|]. rewrite H. apply IH. Qed.
+
 (* ---- the whole of create_tag -------------------------------------------------- *)
+(* block loop, idiom B: for start in range(0, len(data), 16) *)
+Lemma py_range_16 n : 0 <= n -> py_range 0 n 16 = map (fun k => k * 16) (zrange 0 ((n + 15) / 16)).
+Proof.
+  intros Hn. unfold py_range. change (0 <? 16) with true. cbv iota.
+  unfold zrange. rewrite map_map. rewrite !Z.sub_0_r. replace (n + 16 - 1) with (n + 15) by lia.
+  apply map_ext. intros k. lia.
+Qed.
+
 Lemma poly_create_tag_ok st data :
   poly_create_tag st data =
   let acc := fold_left (fun acc c => (poly_r st * (acc + c)) mod P1305)
                        (map block_num (chunks 16 data)) (poly_acc st) + poly_s st in
   Ok (mkPoly1305 acc (poly_r st) (poly_s st), le_bytes 16 acc).
 Proof.
-  unfold poly_create_tag.
-  rewrite divceil_16 by apply zlen_nonneg. cbn [bind].
-  rewrite (foldM_ok_ext _ (fun acc i =>
-     (poly_r st * (acc + block_num (firstn 16 (skipn (Z.to_nat (i * 16)) data)))) mod P1305)).
-  2:{ intros a i Hi. apply in_zrange in Hi. rewrite poly_le_bytes_to_num_ok. cbn [bind].
-      rewrite py_slice_block by lia. reflexivity. }
-  cbn [bind]. rewrite poly_num_to_16_le_bytes_ok. cbn [bind].
-  unfold chunks. rewrite <- (chunks_fuel_index (length data) data ((zlen data + 15) / 16)) by (reflexivity || lia).
-  rewrite map_map. rewrite fold_left_map.
-  reflexivity.
+  assert (Hch : forall (g : Z -> Z), (forall i, 0 <= i -> g i = block_num (firstn 16 (skipn (Z.to_nat (i * 16)) data))) ->
+     forall r a0, fold_left (fun acc i => (r * (acc + g i)) mod P1305) (zrange 0 ((zlen data + 15) / 16)) a0 =
+                  fold_left (fun acc c => (r * (acc + c)) mod P1305) (map block_num (chunks 16 data)) a0).
+  { intros g Hg r a0. unfold chunks.
+    rewrite <- (chunks_fuel_index (length data) data ((zlen data + 15) / 16)) by (reflexivity || lia).
+    rewrite map_map, fold_left_map. revert a0.
+    assert (forall l a0, (forall i, In i l -> 0 <= i) ->
+              fold_left (fun acc i => (r * (acc + g i)) mod P1305) l a0 =
+              fold_left (fun a x => (r * (a + block_num (firstn 16 (skipn (Z.to_nat (x * 16)) data)))) mod P1305) l a0) as G.
+    { induction l as [|i l IH]; intros a0 Hl; [reflexivity|]. cbn [fold_left]. rewrite Hg by (apply Hl; left; reflexivity).
+      apply IH. intros j Hj. apply Hl. right. exact Hj. }
+    intros a0. apply G. intros i Hi. apply in_zrange in Hi. lia. }
+  unfold poly_create_tag, poly_le_bytes_to_num, poly_num_to_16_le_bytes. cbv zeta.
+  first
+  [ (* idiom A: block index up to divceil(len, 16); accumulator updated in two statements *)
+    rewrite divceil_16 by apply zlen_nonneg; cbn [bind];
+    rewrite (foldM_ok_ext _ (fun acc i =>
+       (poly_r st * (acc + block_num (firstn 16 (skipn (Z.to_nat (i * 16)) data)))) mod P1305))
+      by (intros a i Hi; apply in_zrange in Hi; rewrite le_loop_index; cbn [bind]; rewrite py_slice_block by lia; reflexivity);
+    cbn [bind]; rewrite ser_loop_shift; cbn [bind];
+    rewrite <- (Hch (fun i => block_num (firstn 16 (skipn (Z.to_nat (i * 16)) data))) ltac:(reflexivity));
+    reflexivity
+  | (* idiom B: start offsets range(0, len, 16); accumulator updated in one expression *)
+    rewrite py_range_16 by apply zlen_nonneg; rewrite fold_left_map;
+    rewrite (fold_left_ext _ (fun acc i =>
+       (poly_r st * (acc + le_num (py_slice data (Some (i * 16)) (Some (i * 16 + 16)) ++ [1]))) mod P1305))
+      by (intros; rewrite le_loop_rev; reflexivity);
+    rewrite (Hch (fun i => le_num (py_slice data (Some (i * 16)) (Some (i * 16 + 16)) ++ [1])))
+      by (intros i Hi; unfold block_num; do 2 f_equal; rewrite py_slice_nonneg by lia; f_equal; lia);
+    rewrite ser_loop_index; reflexivity ].
 Qed.
 
 Lemma le_bytes_mod n v : le_bytes n (v mod 256 ^ Z.of_nat n) = le_bytes n v.
@@ -224,8 +318,8 @@ Qed.
 Lemma poly_init_ok key : zlen key = 32 ->
   poly_init key = Ok (mkPoly1305 0 (clamp_r (le_num (firstn 16 key))) (le_num (skipn 16 key))).
 Proof.
-  intros H. unfold poly_init. rewrite H. cbn [Z.eqb Pos.eqb negb].
-  rewrite !poly_le_bytes_to_num_ok. cbn [bind].
+  intros H. unfold poly_init, poly_le_bytes_to_num. rewrite H. cbn [Z.eqb Pos.eqb negb]. cbv zeta.
+  first [ rewrite !le_loop_index; cbn [bind] | rewrite !le_loop_rev ].
   rewrite !py_slice_nonneg by lia. cbn [Z.sub Z.to_nat Pos.to_nat Pos.iter_op Z.opp Z.add Z.pos_sub Pos.pred_double Z.succ_double Z.pred_double Z.double skipn plus].
   change (Pos.to_nat 16) with 16%nat.
   rewrite (firstn_all2 (n := 16) (skipn 16 key)) by (rewrite skipn_length; unfold zlen in H; lia).
